@@ -96,6 +96,59 @@ def cases(tier, seed, focus=None):
                               if r2.random() < 0.3 else []) for _ in range(len(calls) - 1)]
             case["pre"] = r2.choice(["none", "none", "some", "all"])
         yield case
+    # NON-LEAF inputs that retain grad (accepted by the library: `is_leaf or retains_grad`), differentiated without vmap
+    # (a single row, or parallel_chunk_size = 1): autograd's own retain_grad hook writes their .grad during the sweep
+    r3 = random.Random(6012000 + seed)
+    for j in range(6 if tier == "quick" else 60):
+        yield {"retained": {"fn": ["backward", "mtl"][j % 2], "seed": r3.randrange(10**6), "rows": [1, 2, 3][j % 3],
+                            "pre": [False, True][(j // 2) % 2], "dtype": ["float64", "float32"][(j // 3) % 2]}}
+
+
+def _run_retained(case):
+    """x = leaf * 2 with retain_grad(), passed as an input / a task parameter; chunk size 1 (or one row): no vmap."""
+    from torchjd import backward, mtl_backward
+    from torchjd.aggregation import Sum
+    c = case["retained"]
+    dtype = torch.float64 if c["dtype"] == "float64" else torch.float32
+    g = torch.Generator().manual_seed(c["seed"])
+    m = c["rows"]
+
+    def build():
+        leaf = (torch.rand(3, generator=torch.Generator().manual_seed(c["seed"]), dtype=torch.float64) + 0.5).to(dtype).requires_grad_(True)
+        x = leaf * 2.0
+        x.retain_grad()
+        coef = (torch.rand(m, 3, generator=torch.Generator().manual_seed(c["seed"] + 1), dtype=torch.float64) + 0.5).to(dtype)
+        return leaf, x, coef
+    leaf, x, coef = build()
+    pre = None
+    if c["pre"]:
+        pre = torch.full((3,), 0.25, dtype=dtype)
+        x.grad = pre.clone()
+    sig = f"RETAINED|{c}"
+    try:
+        if c["fn"] == "backward":
+            y = coef @ (x * x)                      # m scalars, d y_r / d x = 2 coef_r * x
+            backward([y], Sum(), inputs=[x], retain_graph=False, parallel_chunk_size=1)
+            want = (2.0 * coef * x.detach()).sum(dim=0)
+        else:
+            shared = torch.ones(3, dtype=dtype, requires_grad=True)
+            f = shared * 3.0
+            losses = [(f * x * coef[r]).sum() for r in range(m)]   # x is a parameter of EVERY task
+            mtl_backward(losses, features=[f], aggregator=Sum(), tasks_params=[[x] for _ in range(m)][:1] + [[] for _ in range(m - 1)],
+                         shared_params=[shared], retain_graph=False, parallel_chunk_size=1)
+            want = (f.detach() * coef[0])               # only task 0 lists x: its own-task gradient
+    except Exception as e:  # noqa: BLE001
+        return {"ok": False, "sig": sig, "nontrivial": True, "key": "C06.retained_input", "what": "valid call raised",
+                "observed": f"{type(e).__name__}: {str(e)[:160]}", "expected": "success"}
+    want = want if pre is None else want + pre
+    tol = 1e-9 if dtype == torch.float64 else 1e-4
+    got = x.grad
+    if got is None or float((got - want).abs().max()) > tol * (1.0 + float(want.abs().max())):
+        return {"ok": False, "sig": sig, "nontrivial": True, "key": "C06.retained_input",
+                "what": f"{c['fn']}: the .grad of a NON-LEAF input that retains grad is not (previous .grad +) its slice of the update: "
+                        "autograd's retain_grad hook has already written the gradient(s) of the sweep(s) into it when Accumulate adds the update",
+                "observed": None if got is None else got.tolist(), "expected": want.tolist()}
+    return {"ok": True, "sig": sig, "nontrivial": True}
 
 
 # ----------------------------------------------------------------------------- one call on the real program + oracle
@@ -200,6 +253,8 @@ def _apply_edit(leaves, e, dtype, last_req=()):
 
 
 def run_case(case):
+    if "retained" in case:
+        return _run_retained(case)
     ctx = _Ctx(case)
     sig = "|".join(ctx.trace) + f"|{case['agg']}|{case['calls']}|{case['edits']}|{case['pre']}"
     if ctx.agg() is None:
